@@ -41,7 +41,8 @@ func init() {
 		Parallel: 8,
 		Batches: func(seed int64, tier core.Tier) []core.Batch {
 			var bs []core.Batch
-			kinds := []storeKind{{"badger", false, ""}, {"badger", true, "pfx"}, {"badger", false, "p"}, {"badger", true, ""}, {"mock", false, ""}}
+			kinds := []storeKind{{Impl: "badger", Typed: false, Prefix: ""}, {Impl: "badger", Typed: true, Prefix: "pfx"}, {Impl: "badger", Typed: false, Prefix: "p"}, {Impl: "badger", Typed: true, Prefix: ""}, {Impl: "mock", Typed: false, Prefix: ""},
+				{Impl: "badger", Typed: false, Prefix: "bare", Bare: true}, {Impl: "badger", Typed: true, Prefix: "", Bare: true}, {Impl: "mock", Bare: true}}
 			for i, k := range kinds {
 				for s := 0; s < tierPick(tier, 1, 8); s++ {
 					bs = append(bs, core.Batch{Name: fmt.Sprintf("concurrent-%d-%d", i, s), TimeoutS: 600,
@@ -50,7 +51,7 @@ func init() {
 				bs = append(bs, core.Batch{Name: fmt.Sprintf("sequential-%d", i), TimeoutS: 600,
 					Params: core.Params(c11Params{Kind: "sequential", Store: k, Histories: tierPick(tier, 50, 600)})})
 			}
-			for i, k := range []storeKind{{"badger", false, "r"}, {"mock", false, ""}} {
+			for i, k := range []storeKind{{Impl: "badger", Typed: false, Prefix: "r"}, {Impl: "mock", Typed: false, Prefix: ""}} {
 				bs = append(bs, core.Batch{Name: fmt.Sprintf("race-%d", i), TimeoutS: 900, Race: true,
 					Params: core.Params(c11Params{Kind: "concurrent", Store: k, Histories: tierPick(tier, 8, 60)})})
 			}
@@ -66,6 +67,7 @@ type stOp struct {
 	UID   string `json:"uid,omitempty"`
 	Veto  bool   `json:"veto,omitempty"`
 	Wrong bool   `json:"wrong,omitempty"`
+	Bad   bool   `json:"bad,omitempty"` // value of the right type that cannot be encoded (NaN)
 }
 
 type stRes struct {
@@ -114,6 +116,9 @@ func c11Apply(state string, op stOp) (stRes, string) {
 		if op.Veto {
 			return stRes{Class: "veto"}, state
 		}
+		if op.Bad {
+			return stRes{Class: "unencodable"}, state
+		}
 		return stRes{Class: "ok"}, op.UID
 	case "update":
 		if op.Wrong {
@@ -124,6 +129,9 @@ func c11Apply(state string, op stOp) (stRes, string) {
 		}
 		if op.Veto {
 			return stRes{Class: "veto"}, state
+		}
+		if op.Bad {
+			return stRes{Class: "unencodable"}, state
 		}
 		return stRes{Class: "ok"}, op.UID
 	case "delete":
@@ -149,6 +157,9 @@ func c11Exec(k storeKind, rt store.ReadTxn, wt store.WriteTxn, op stOp) stRes {
 		if op.Wrong && err != nil && cl != "notfound" && cl != "duplicate" && cl != "veto" {
 			return "wrongtype"
 		}
+		if op.Bad && err != nil && cl != "notfound" && cl != "duplicate" && cl != "veto" {
+			return "unencodable"
+		}
 		return cl
 	}
 	switch op.Kind {
@@ -163,6 +174,9 @@ func c11Exec(k storeKind, rt store.ReadTxn, wt store.WriteTxn, op stOp) stRes {
 			} else {
 				v = tItem{U: op.UID}
 			}
+		}
+		if op.Bad {
+			v = mkUnencodable(k.Typed, op.UID, "")
 		}
 		var err error
 		if op.Kind == "create" {
@@ -212,8 +226,10 @@ func c11RandOps(r *rand.Rand, k storeKind, write bool, uid func() string) []stOp
 			ops = append(ops, stOp{Kind: "value"})
 		case v < 17:
 			ops = append(ops, stOp{Kind: "exists"})
-		case v < 19 && k.Impl == "badger":
+		case v < 19 && k.Impl == "badger" && !k.Bare:
 			ops = append(ops, stOp{Kind: []string{"create", "update"}[r.Intn(2)], UID: uid(), Veto: true})
+		case k.Impl == "badger" && r.Intn(2) == 0:
+			ops = append(ops, stOp{Kind: []string{"create", "update"}[r.Intn(2)], UID: uid(), Bad: true})
 		case k.Impl == "badger":
 			ops = append(ops, stOp{Kind: []string{"create", "update"}[r.Intn(2)], UID: uid(), Wrong: true})
 		default:
@@ -257,13 +273,15 @@ func c11Concurrent(c *core.Ctx, k storeKind, ns string) bool {
 	ids := []string{ns + "-a", ns + "-b", ns + "-c"}
 	var cbmu sync.Mutex
 	var cbs []cbRec
-	st.OnChange(func(id string, before, after interface{}) {
-		rec := cbRec{ID: id, Before: valUID(before), After: valUID(after), G: mon.GoID(), Seq: mon.Seq()}
-		cbmu.Lock()
-		cbs = append(cbs, rec)
-		cbmu.Unlock()
-	})
-	if bst != nil {
+	if !k.Bare {
+		st.OnChange(func(id string, before, after interface{}) {
+			rec := cbRec{ID: id, Before: valUID(before), After: valUID(after), G: mon.GoID(), Seq: mon.Seq()}
+			cbmu.Lock()
+			cbs = append(cbs, rec)
+			cbmu.Unlock()
+		})
+	}
+	if bst != nil && !k.Bare {
 		bst.BeforeChange(func(id string, before, after interface{}) error {
 			if after != nil && valVeto(after) {
 				return errVeto
@@ -445,7 +463,7 @@ func c11Concurrent(c *core.Ctx, k storeKind, ns string) bool {
 		}
 	}
 	for _, id := range ids {
-		if nmut[id] != ncb[id] {
+		if nmut[id] != ncb[id] && !k.Bare {
 			c.Violation("C11/callback-count:"+k.Impl, fmt.Sprintf("id %s: %d successful mutations but %d OnChange callbacks", id, nmut[id], ncb[id]), map[string]interface{}{"store": k})
 		}
 		// (5) final content
@@ -456,7 +474,7 @@ func c11Concurrent(c *core.Ctx, k storeKind, ns string) bool {
 		if err == nil {
 			got = valUID(v)
 		}
-		if got != last[id] {
+		if got != last[id] && !k.Bare {
 			c.Violation("C11/final-content:"+k.Impl, fmt.Sprintf("id %s: store holds %q after the history, callbacks say %q", id, got, last[id]), map[string]interface{}{"store": k})
 		}
 	}
@@ -502,11 +520,13 @@ func c11Sequential(c *core.Ctx, k storeKind, ns string) bool {
 	model := map[string]string{}
 	var lastCB *cbRec
 	ncb := 0
-	st.OnChange(func(id string, before, after interface{}) {
-		ncb++
-		lastCB = &cbRec{ID: id, Before: valUID(before), After: valUID(after), G: mon.GoID()}
-	})
-	if bst != nil {
+	if !k.Bare {
+		st.OnChange(func(id string, before, after interface{}) {
+			ncb++
+			lastCB = &cbRec{ID: id, Before: valUID(before), After: valUID(after), G: mon.GoID()}
+		})
+	}
+	if bst != nil && !k.Bare {
 		bst.BeforeChange(func(id string, before, after interface{}) error {
 			if after != nil && valVeto(after) {
 				return errVeto
@@ -515,7 +535,7 @@ func c11Sequential(c *core.Ctx, k storeKind, ns string) bool {
 		})
 	}
 	genIDs := 0
-	if ms, ok := st.(*mockstore.Store); ok && r.Intn(2) == 0 {
+	if ms, ok := st.(*mockstore.Store); ok && r.Intn(2) == 0 && !k.Bare { // the generated id is learnt from the callback
 		ms.NewID = func() string { genIDs++; return fmt.Sprintf("%s-gen%d", ns, genIDs) }
 	}
 	canGen := func() bool {
@@ -586,7 +606,7 @@ func c11Sequential(c *core.Ctx, k storeKind, ns string) bool {
 				// nil is not a value of the store's type: must fail and change nothing
 				want, nst = stRes{Class: "error"}, state
 			}
-			if cur == "" && op.Kind == "create" && !op.Wrong && !op.Veto && !isNil {
+			if cur == "" && op.Kind == "create" && !op.Wrong && !op.Veto && !op.Bad && !isNil {
 				if canGen() {
 					want = stRes{Class: "ok"}
 				} else {
@@ -631,7 +651,9 @@ func c11Sequential(c *core.Ctx, k storeKind, ns string) bool {
 			} else if cur != "" {
 				model[cur] = nst
 			}
-			if got.Class == "ok" && mutated {
+			if k.Bare {
+				// no listener registered: nothing to check about callbacks
+			} else if got.Class == "ok" && mutated {
 				if ncb != before+1 {
 					c.Violation("C11/seq-callback-count:"+k.Impl, fmt.Sprintf("successful %s ran %d OnChange callbacks", op.Kind, ncb-before), desc)
 				} else {
